@@ -1,3 +1,4 @@
+import Chartparse.Proofs.ChartCompose
 import Chartparse.Proofs.RouteProofs
 /-! Property theorems of C13 (statements only; helper lemmas live in `Proofs/`). -/
 namespace Chartparse.Props.C13
@@ -47,5 +48,13 @@ theorem C13_chart :
 
 /-- non-vacuity: a tag of the regenerated header table routes, an unknown one does not -/
 example : routeOf (cp "ExpertSingle") = some (0, 3, 0, 3) ∧ routeOf (cp "SingleExpert") = none := by decide
+
+/-- **every track of a returned chart is the track builder's result on one of the chart's own sections**, built against
+    the chart's own resolution and tempo map, under the header's (instrument, difficulty) key, and only if selected -/
+theorem C13_only_selected :
+    ∀ (secs : Sections) (want : Option (List (Nat × Nat))) (c : Chart)
+    (h : parseSections secs want = .ok c),
+    ∀ rt ∈ c.tracks, FromSection c.res c.sync.bpms (selOf want) secs rt :=
+  @Chartparse.chart_tracks_from_sections
 
 end Chartparse.Props.C13
